@@ -2,6 +2,7 @@
 From Coq Require Import List QArith Qminmax ZArith NArith Bool Arith.
 From QmcV Require Import Model.Prog Model.Sse Model.Ham Model.Diagonal Model.Tempering
      Proofs.ProgLemmas Proofs.TemperingProofs.
+From QmcV Require Import Proofs.Expect Proofs.TemperingStationary.
 Import ListNotations.
 Open Scope Q_scope.
 
@@ -54,3 +55,17 @@ Theorem C10_beta_factor : forall ba bb (na nb : nat), 0 < ba -> 0 < bb ->
   == (qpow ba nb * qpow bb na) / (qpow ba na * qpow bb nb).
 Proof. exact beta_factor. Qed.
 Print Assumptions C10_beta_factor.
+
+(* the transition probabilities of a whole pairing phase, pair by pair: exchanged with min(1, p_swap), kept
+   with 1 - min(1, p_swap), independently for the pairs (0,1), (2,3), ...; nothing else is reachable *)
+Theorem C10_phase_transition_probabilities : forall (A : Type) (eqb : A -> A -> bool) (ps : A -> A -> Q)
+    (swp : A -> A -> A * A) l l',
+  mass (leqb eqb l') (denote (phase_l ps swp l)) == T eqb ps swp l l'.
+Proof. intros A eqb ps swp. exact (mass_phase_l eqb ps swp). Qed.
+Print Assumptions C10_phase_transition_probabilities.
+
+(* Metropolis balance of one pair from the two ratio identities *)
+Theorem C10_pair_balance : forall x y r r' : Q,
+  0 < x -> 0 < y -> r * x == y -> r' * y == x -> x * qmin1q r == y * qmin1q r'.
+Proof. exact metropolis_pair_balance. Qed.
+Print Assumptions C10_pair_balance.
